@@ -134,7 +134,9 @@ def run_batch(prop: str, tier: str, base_seed: int, n: int, jobs: int, log=print
     tasks = [(prop, tier, base_seed, lo, min(lo + chunk, n)) for lo in range(0, n, chunk)]
     recs = []
     ctx = mp.get_context("fork")
-    per_task_timeout = 60 + chunk * 20
+    from .engine import OP_TIMEOUT_S
+
+    per_task_timeout = 60 + chunk * (20 + 2 * OP_TIMEOUT_S)
     with cf.ProcessPoolExecutor(max_workers=jobs, mp_context=ctx) as ex:
         futs = [ex.submit(_worker, t) for t in tasks]
         for f, t in zip(futs, tasks):
